@@ -79,8 +79,8 @@ func buildOps(mode string) []op {
 	if mode == "argon2" {
 		for _, c := range []struct {
 			mode, ver int
-			p       uint8
-			m, t    uint32
+			p         uint8
+			m, t      uint32
 		}{{0, 0x13, 2, 16, 1}, {1, 0x13, 3, 24, 2}, {2, 0x13, 4, 35, 2}, {2, 0x10, 4, 32, 1}, {0, 0x10, 8, 64, 1}, {1, 0x10, 2, 19, 3}, {2, 0x13, 5, 47, 1}} {
 			c := c
 			ops = append(ops, op{fmt.Sprintf("argon2crypto.Key mode=%d v=%x p=%d m=%d t=%d", c.mode, c.ver, c.p, c.m, c.t), func() string {
@@ -106,10 +106,16 @@ func buildOps(mode string) []op {
 			s, r, o, err := sunmd5.Params(hashes["sunmd5"])
 			return res(fmt.Sprint(string(s), r, o), err)
 		}},
-		op{"sunmd5.Key", func() string { k, err := sunmd5.Key([]byte("pw"), []byte("abc"), 1, nil); return res(fmt.Sprintf("%x", k), err) }},
+		op{"sunmd5.Key", func() string {
+			k, err := sunmd5.Key([]byte("pw"), []byte("abc"), 1, nil)
+			return res(fmt.Sprintf("%x", k), err)
+		}},
 		op{"des.Salt", func() string { s, err := des.Salt(hashes["des"]); return res(string(s), err) }},
 		op{"desext.Params", func() string { s, r, err := desext.Params(hashes["desext"]); return res(fmt.Sprint(string(s), r), err) }},
-		op{"bcrypt.Params", func() string { s, c, o, err := bcrypt.Params(hashes["bcrypt"]); return res(fmt.Sprint(string(s), c, o), err) }},
+		op{"bcrypt.Params", func() string {
+			s, c, o, err := bcrypt.Params(hashes["bcrypt"])
+			return res(fmt.Sprint(string(s), c, o), err)
+		}},
 		op{"bcrypt.Key", func() string {
 			k, err := bcrypt.Key([]byte("pw"), []byte("aaaaaaaaaaaaaaaaaaaaa."), 4, nil)
 			return res(fmt.Sprintf("%x", k), err)
@@ -125,8 +131,16 @@ func buildOps(mode string) []op {
 		}},
 		op{"Marshal shared value", func() string { s, err := crypthash.Marshal(shared{"x", 7, []byte("cc")}); return res(s, err) }},
 		op{"Marshal shared pointer", func() string { s, err := crypthash.Marshal(&shared{"y", 0, []byte("d")}); return res(s, err) }},
-		op{"Unmarshal shared", func() string { var v shared; err := crypthash.Unmarshal("a=q$b=5$zz", &v); return res(fmt.Sprint(v), err) }},
-		op{"Unmarshal shared error", func() string { var v shared; err := crypthash.Unmarshal("a=q$b=5$zz$more", &v); return res(fmt.Sprint(v), err) }},
+		op{"Unmarshal shared", func() string {
+			var v shared
+			err := crypthash.Unmarshal("a=q$b=5$zz", &v)
+			return res(fmt.Sprint(v), err)
+		}},
+		op{"Unmarshal shared error", func() string {
+			var v shared
+			err := crypthash.Unmarshal("a=q$b=5$zz$more", &v)
+			return res(fmt.Sprint(v), err)
+		}},
 		op{"Marshal bad tag", func() string { s, err := crypthash.Marshal(badTag{"x"}); return res(s, err) }},
 		op{"Unmarshal bad tag", func() string { var v badTag; err := crypthash.Unmarshal("x", &v); return res(nil, err) }},
 	)
@@ -142,32 +156,64 @@ func buildOps(mode string) []op {
 	return ops
 }
 
-// freshTypeOp: first use of a struct type never seen before, in value and pointer form from two goroutines
-func freshTypeOps(k int) (reflect.Type, []op) {
-	t := reflect.StructOf([]reflect.StructField{
-		{Name: fmt.Sprintf("F%d", k), Type: reflect.TypeOf(""), Tag: `hash:"param:f"`},
-		{Name: "G", Type: reflect.TypeOf(uint16(0))},
-	})
-	mkv := func() reflect.Value {
+// raceInner is embedded (at different positions) by the fresh outer types below
+type raceInner struct {
+	X string `hash:"param:x"`
+	Y uint16 `hash:"param:y,omitempty"`
+}
+
+// freshTypeOps: first use of struct types never seen before -- a plain one, one with an INVALID tag (its error must
+// name the form it was called with), two that embed the same struct at different positions -- in value and pointer
+// form, from all goroutines of the run at once.  only >= 0 restricts the list to that one op (used to compute each
+// expected result on a twin type of its own, so that it is the result of an isolated first use).
+func freshTypeOps(k int, only int) (string, []op) {
+	fname := fmt.Sprintf("F%d", k)
+	str, u16 := reflect.TypeOf(""), reflect.TypeOf(uint16(0))
+	plain := reflect.StructOf([]reflect.StructField{{Name: fname, Type: str, Tag: `hash:"param:f"`}, {Name: "G", Type: u16}})
+	bad := reflect.StructOf([]reflect.StructField{{Name: fname, Type: str, Tag: `hash:"param:f,length:x"`}, {Name: "G", Type: u16, Tag: `hash:"inline,group"`}})
+	embA := reflect.StructOf([]reflect.StructField{{Name: fname, Type: str}, {Name: "RaceInner", Type: reflect.TypeOf(raceInner{}), Anonymous: true}, {Name: "G", Type: u16}})
+	embB := reflect.StructOf([]reflect.StructField{{Name: "RaceInner", Type: reflect.TypeOf(raceInner{}), Anonymous: true}, {Name: fname, Type: str}})
+	fill := func(t reflect.Type) reflect.Value {
 		p := reflect.New(t)
-		p.Elem().Field(0).SetString("v")
-		p.Elem().Field(1).SetUint(9)
+		for i := 0; i < t.NumField(); i++ {
+			f := p.Elem().Field(i)
+			switch f.Kind() {
+			case reflect.String:
+				f.SetString("v")
+			case reflect.Uint16:
+				f.SetUint(9)
+			case reflect.Struct:
+				f.Field(0).SetString("ix")
+				f.Field(1).SetUint(3)
+			}
+		}
 		return p
 	}
-	return t, []op{
-		{"fresh Marshal value", func() string { s, err := crypthash.Marshal(mkv().Elem().Interface()); return res(s, err) }},
-		{"fresh Marshal pointer", func() string { s, err := crypthash.Marshal(mkv().Interface()); return res(s, err) }},
-		{"fresh Unmarshal", func() string {
-			p := reflect.New(t)
-			err := crypthash.Unmarshal("f=w$12", p.Interface())
-			return res(fmt.Sprint(p.Elem().Interface()), err)
-		}},
-		{"fresh Unmarshal error", func() string {
-			p := reflect.New(t)
-			err := crypthash.Unmarshal("f=w$x", p.Interface())
-			return res(nil, err)
-		}},
+	var ops []op
+	for _, tc := range []struct {
+		name string
+		t    reflect.Type
+		good string
+	}{{"plain", plain, "f=w$12"}, {"badtag", bad, "f=w$12"}, {"embA", embA, "w$x=q$y=2$12"}, {"embB", embB, "x=q$w"}} {
+		tc := tc
+		ops = append(ops,
+			op{"fresh " + tc.name + " Marshal value", func() string { s, err := crypthash.Marshal(fill(tc.t).Elem().Interface()); return res(s, err) }},
+			op{"fresh " + tc.name + " Marshal pointer", func() string { s, err := crypthash.Marshal(fill(tc.t).Interface()); return res(s, err) }},
+			op{"fresh " + tc.name + " Unmarshal", func() string {
+				p := reflect.New(tc.t)
+				err := crypthash.Unmarshal(tc.good, p.Interface())
+				return res(fmt.Sprint(p.Elem().Interface()), err)
+			}},
+			op{"fresh " + tc.name + " Unmarshal error", func() string {
+				p := reflect.New(tc.t)
+				err := crypthash.Unmarshal(tc.good+"$surplus", p.Interface())
+				return res(nil, err)
+			}})
 	}
+	if only >= 0 {
+		ops = ops[only : only+1]
+	}
+	return fname, ops
 }
 
 type report struct {
@@ -207,12 +253,14 @@ func main() {
 				var fexp []string
 				if *mode == "all" {
 					fresh++
-					_, fops = freshTypeOps(fresh*1000 + int(*seed%1000))
-					// expected results on a private copy of an identical but distinct type
-					_, eops := freshTypeOps(fresh*1000 + int(*seed%1000) + 500000)
-					for _, o := range eops {
-						// the twin differs only in the name of its first field
-						fexp = append(fexp, strings.ReplaceAll(o.run(), fmt.Sprintf("F%d", fresh*1000+int(*seed%1000)+500000), fmt.Sprintf("F%d", fresh*1000+int(*seed%1000))))
+					base := fresh*1000 + int(*seed%1000)
+					var fname string
+					fname, fops = freshTypeOps(base, -1)
+					// expected results: each op alone, as the first use of a twin type of its own (the twins differ from the
+					// shared type only in the name of one field)
+					for j := range fops {
+						tname, eops := freshTypeOps(base+500000+j*100000, j)
+						fexp = append(fexp, strings.ReplaceAll(eops[0].run(), tname, fname))
 					}
 				}
 				start := make(chan struct{})
